@@ -15,6 +15,7 @@ import (
 	"os"
 	"runtime"
 	"strconv"
+	"strings"
 	"sync"
 	"sync/atomic"
 	"time"
@@ -94,7 +95,7 @@ var errClosed = thrift.NewTTransportException(thrift.NOT_OPEN, "scripted: connec
 const tagMul = 10
 
 // causeCode: 0 nil, 1 io.EOF, 2 io.ErrUnexpectedEOF, 3 bad frame size, 4 registry.Execute error,
-// 5 the scripted "connection closed" error, 1000+10*tag+{0 raw, 1 raw wrapped in a TTransportException, 2 scripted TTransportException}, 9 anything else
+// 5 the scripted "connection closed" error, 6 the read loop's "end of stream inside a frame", 1000+10*tag+{0 raw, 1 raw wrapped in a TTransportException, 2 scripted TTransportException}, 9 anything else
 func (sc *scen) causeCode(err error) int {
 	if err == nil {
 		return 0
@@ -129,6 +130,9 @@ func (sc *scen) causeCode(err error) int {
 		}
 		if len(te.Error()) > 30 && te.Error()[:30] == "frugal: incorrect frame size (" {
 			return 3
+		}
+		if strings.HasPrefix(te.Error(), "frugal: end of stream inside a frame (") && te.TypeId() == thrift.END_OF_FILE {
+			return 6
 		}
 	}
 	return 9
